@@ -2,7 +2,7 @@
 them against tables/discharge.jsonl (exact keys only)."""
 import json
 import os
-from .rt import RtAnalysis
+from .rt import INFINITE_ITERS, RtAnalysis
 from .core import VERIF
 
 RT_FLOOR = 1200          # instances reachable from the audio-thread roots (counted: 1864)
@@ -34,31 +34,104 @@ def chk_delay_line_nonempty(F):
     return n == 2, '%d writers found' % n
 
 
+def _at_least_one(F, d, depth=3):
+    """Does the described usize value have a lower bound of one?  `max(x, 1)`, a literal >= 1, or the result of a kira
+    function / closure all of whose return paths are such values."""
+    from .paths import parse_term, explore
+    name, args = parse_term(d)
+    if args is None:
+        lit = d.replace('const ', '').replace('_usize', '')
+        return lit.isdigit() and int(lit) >= 1
+    if name.endswith('::max') and len(args) == 2 and args[1].replace('const ', '').replace('_usize', '') == '1':
+        return True
+    fb = F.body(name)
+    if fb is not None and fb.krate == 'kira' and depth > 0:
+        rets = [str(p.ret) for p in explore(fb) if p.end == 'return']
+        return bool(rets) and all(_at_least_one(F, r, depth - 1) for r in rets)
+    return False
+
+
 def chk_reverb_filters_nonempty(F):
-    from .paths import describe, explore
+    """Every construction of a comb / all-pass filter, anywhere in the crate, is given a buffer size with a lower bound
+    of one sample (the filters index `buffer[current_index]` and compute `% buffer.len()`)."""
+    from .paths import describe
     from .facts import callee_path
-    b = F.body('effect::reverb::Reverb::init_filters')
-    if b is None:
-        return False, 'Reverb::init_filters not found'
+    ctors = ('effect::reverb::comb::CombFilter::new', 'effect::reverb::all_pass::AllPassFilter::new')
+    seen = set()
     n = 0
-    for bb, t in b.calls():
-        cp = callee_path(t) or ''
-        if cp in ('effect::reverb::comb::CombFilter::new', 'effect::reverb::all_pass::AllPassFilter::new'):
-            n += 1
-            d = describe(b, t['args'][0], depth=3, at=bb)
-            if not d.startswith('effect::reverb::Reverb::init_filters::{closure#0}('):
-                return False, 'a filter is sized with %s' % d[:100]
-    # constructors are only called here
     for o in F.bodies:
-        if o.krate == 'kira' and o.path != b.path:
-            for bb, t in o.calls():
-                if (callee_path(t) or '') in ('effect::reverb::comb::CombFilter::new', 'effect::reverb::all_pass::AllPassFilter::new'):
-                    return False, '%s builds a filter' % o.path
-    for c in F.closures_of(b.path):
-        rets = [str(p.ret) for p in explore(c) if p.end == 'return']
-        if not rets or not all('::max(' in r and r.rstrip(')').endswith(', 1') for r in rets):
-            return False, 'the size helper returns %s (no lower bound of one sample)' % rets
-    return n == 24, '%d filter constructions' % n
+        if o.krate != 'kira':
+            continue
+        for bb, t in o.calls():
+            cp = callee_path(t) or ''
+            if cp in ctors:
+                n += 1
+                seen.add(cp)
+                d = describe(o, t['args'][0], depth=3, at=bb)
+                if not _at_least_one(F, d):
+                    return False, '%s sizes a filter with %s (no lower bound of one sample)' % (o.path, d[:100])
+    if seen != set(ctors):
+        return False, 'filter constructions not found (%s)' % sorted(seen)
+    return True, '%d filter constructions, all sized >= 1' % n
+
+
+def _strict_less(name, args):
+    """(small, large) when the comparison term says small < large strictly."""
+    if args is None or len(args) != 2:
+        return None
+    if name == 'Gt':
+        return args[1], args[0]
+    if name == 'Lt':
+        return args[0], args[1]
+    return None
+
+
+def _ordered_pair_value(F, fb, d, decisions):
+    """Is the Option<(start, end)> described by `d` (a value of function `fb`, reached under `decisions`) either None or
+    a pair with end > start?  Recognised: `x?` residuals, None, `opt.filter(|(s, e)| e > s)`, `(e > s).then_some((s, e))`,
+    and `Some((s, e))` on a path that took the true edge of `e > s` (or the false edge of `e <= s`)."""
+    from .paths import parse_term, describe, bool_label
+    name, args = parse_term(d)
+    if name.endswith('::from_residual') or name.endswith('Option::None') or name.endswith('::None'):
+        return True, ''
+    if name == 'std::option::Option::<T>::filter':
+        for c in F.closures_of(fb.path):
+            for x, t in c.calls():
+                if t['callee'].get('name') in ('gt', 'lt') and len(t['args']) == 2:
+                    a0 = describe(c, t['args'][0], depth=4, at=x).lstrip('&')
+                    a1 = describe(c, t['args'][1], depth=4, at=x).lstrip('&')
+                    if t['callee']['name'] == 'gt' and a0.endswith('.1') and a1.endswith('.0'):
+                        return True, ''
+                    if t['callee']['name'] == 'lt' and a0.endswith('.0') and a1.endswith('.1'):
+                        return True, ''
+            for x, si, st in c.stmts():
+                if st['k'] == 'assign' and st['rv']['k'] == 'bin' and st['rv']['op'] in ('Gt', 'Lt'):
+                    a0 = describe(c, st['rv']['a'], depth=4, at=x)
+                    a1 = describe(c, st['rv']['b'], depth=4, at=x)
+                    if (st['rv']['op'] == 'Gt' and a0.endswith('.1') and a1.endswith('.0')) or \
+                            (st['rv']['op'] == 'Lt' and a0.endswith('.0') and a1.endswith('.1')):
+                        return True, ''
+        return False, 'the filter closure does not keep only end > start'
+    if name == 'core::bool::<impl bool>::then_some' and args and len(args) == 2:
+        sl = _strict_less(*parse_term(args[0]))
+        tn, ta = parse_term(args[1])
+        if sl and tn == 'tuple' and ta == [sl[0], sl[1]]:
+            return True, ''
+        return False, 'then_some is not `(end > start).then_some((start, end))`'
+    if name.endswith('Option::Some') or name.endswith('::Some'):
+        tn, ta = parse_term(args[0]) if args else ('', None)
+        if tn == 'tuple' and ta and len(ta) == 2:
+            for bb, desc, lab in decisions:
+                cn, ca = parse_term(desc)
+                v = bool_label(lab)
+                if v is True and _strict_less(cn, ca) == (ta[0], ta[1]):
+                    return True, ''
+                if v is False and cn in ('Le', 'Ge') and ca and len(ca) == 2:
+                    # !(end <= start)  /  !(start >= end)
+                    if (cn == 'Le' and (ca[1], ca[0]) == (ta[0], ta[1])) or (cn == 'Ge' and (ca[0], ca[1]) == (ta[0], ta[1])):
+                        return True, ''
+            return False, 'Some((start, end)) is returned on a path that did not establish end > start'
+    return False, 'value is not recognised as None or an ordered pair'
 
 
 def chk_loop_region_ordered(F):
@@ -84,32 +157,20 @@ def chk_loop_region_ordered(F):
         fn = d.split('(')[0]
         fb = F.body(fn)
         if fb is None or fb.krate != 'kira':
-            if not d.startswith('std::option::Option::<T>::filter('):
-                return False, '%s stores %s into loop_region without an ordering filter' % (b.path, d[:100])
-            fb = b
-        rets = [str(p.ret) for p in explore(fb) if p.end == 'return'] if fb is not b else [d]
-        if not all(r.startswith('std::option::Option::<T>::filter(') for r in rets):
-            return False, '%s returns %s' % (fb.path, rets)
-        ok = False
-        for c in F.closures_of(fb.path):
-            for x, t in c.calls():
-                if t['callee'].get('name') in ('gt', 'lt') and len(t['args']) == 2:
-                    a0 = describe(c, t['args'][0], depth=4, at=x)
-                    a1 = describe(c, t['args'][1], depth=4, at=x)
-                    a0, a1 = a0.lstrip('&'), a1.lstrip('&')
-                    if t['callee']['name'] == 'gt' and a0.endswith('.1') and a1.endswith('.0'):
-                        ok = True
-                    if t['callee']['name'] == 'lt' and a0.endswith('.0') and a1.endswith('.1'):
-                        ok = True
-            for x, si, st in c.stmts():
-                if st['k'] == 'assign' and st['rv']['k'] == 'bin' and st['rv']['op'] in ('Gt', 'Lt'):
-                    a0 = describe(c, st['rv']['a'], depth=4, at=x)
-                    a1 = describe(c, st['rv']['b'], depth=4, at=x)
-                    if (st['rv']['op'] == 'Gt' and a0.endswith('.1') and a1.endswith('.0')) or \
-                            (st['rv']['op'] == 'Lt' and a0.endswith('.0') and a1.endswith('.1')):
-                        ok = True
-        if not ok:
-            return False, 'the filter in %s does not keep only loop_end > loop_start' % fb.path
+            good, why = _ordered_pair_value(F, b, d, ())
+            if not good:
+                return False, '%s stores %s into loop_region: %s' % (b.path, d[:100], why)
+            continue
+        n = 0
+        for p in explore(fb):
+            if p.end != 'return':
+                continue
+            n += 1
+            good, why = _ordered_pair_value(F, fb, str(p.ret), p.decisions)
+            if not good:
+                return False, '%s returns %s: %s' % (fb.path, str(p.ret)[:160], why)
+        if n == 0:
+            return False, '%s has no return path' % fb.path
     return True, '%d stores, all filtered' % len(stores)
 
 
@@ -149,7 +210,7 @@ def load_table():
             elif d['kind'] == 'site':
                 sites[d['key']] = d
             elif d['kind'] == 'loop':
-                loops[(d['fn'], d['ordinal'])] = d
+                loops['%s|%s' % (d['fn'], d['sig'])] = d
     return sinks, sites, loops
 
 
@@ -232,7 +293,7 @@ def run_engine_a(R, F, groups=('rt',), effects=('alloc', 'free', 'panic', 'block
         ls = A.loops()
         lstats = {'loops': len(ls), 'iter': 0, 'ring-drain': 0, 'drop-glue': 0, 'table': 0, 'undischarged': 0}
         for l in ls:
-            key = '%s#%d' % (l['fn'], l['ordinal'])
+            key = l['key']
             rule = rule_prefix + '.loop'
             if l['klass'] in ('iter', 'ring-drain'):
                 lstats[l['klass']] += 1
@@ -244,7 +305,7 @@ def run_engine_a(R, F, groups=('rt',), effects=('alloc', 'free', 'panic', 'block
                 R.ok(rule, key + tag, detail={'class': 'drop-glue', 'exit': 'compiler-generated loop over the elements of an array/slice'},
                      where=l['where'], nontrivial=False)
                 continue
-            ent = loop_tab.get((l['fn'], l['ordinal']))
+            ent = loop_tab.get(l['key'])
             if ent is not None and ent.get('check'):
                 good, msg = run_check(F, ent['check'], check_cache)
                 if not good:
@@ -256,6 +317,13 @@ def run_engine_a(R, F, groups=('rt',), effects=('alloc', 'free', 'panic', 'block
                 lstats['table'] += 1
                 R.ok(rule, key + tag, detail={'class': ent['klass'], 'reason': ent['reason'], 'exit': l['detail'][:160]},
                      where=l['where'])
+                continue
+            if l['krate'] in ('core', 'alloc', 'std') and not any(('::' + x + '<') in l['iname'] for x in INFINITE_ITERS):
+                # a loop inside the standard library that is not blocking (blocking calls are a separate effect) and is
+                # not instantiated with an unbounded iterator: std's own contract is that it terminates on finite input
+                lstats['std'] = lstats.get('std', 0) + 1
+                R.ok(rule, key + tag, detail={'class': 'std-loop', 'exit': l['detail'][:160], 'instance': l['iname'][:160]},
+                     where=l['where'], nontrivial=False)
                 continue
             lstats['undischarged'] += 1
             R.bad(rule, key, 'loop on the audio thread whose exit is not decided by a finite iterator or a ring drain and has '
